@@ -4,6 +4,9 @@ import (
 	"math/big"
 
 	"com.tuntun.rangers/node/src/common"
+	"com.tuntun.rangers/node/src/middleware/db"
+	"com.tuntun.rangers/node/src/service"
+	"com.tuntun.rangers/node/src/storage/account"
 )
 
 var vfInitDone bool
@@ -13,6 +16,8 @@ func vfInit(height uint64) {
 	if !vfInitDone {
 		common.Init(0, "verif.ini", "mainnet")
 		InitVM()
+		service.InitMinerManager()
+		service.InitRefundManager(nil, nil)
 		vfInitDone = true
 	}
 	common.SetBlockHeight(height)
@@ -71,4 +76,22 @@ func vfTerProgram(op OpCode, a, b, c [32]byte) []byte {
 func vfWord(b []byte) (w [32]byte) {
 	copy(w[:], b)
 	return
+}
+
+// vfNewState: an empty real AccountDB over an in-memory store.
+func vfNewState() *account.AccountDB {
+	mem, _ := db.NewMemDatabase()
+	st, err := account.NewAccountDB(common.Hash{}, account.NewDatabase(mem))
+	if err != nil {
+		panic(err)
+	}
+	return st
+}
+
+// vfNewEVMState: EVM whose StateDB and Rangers account handle are the same real AccountDB.
+func vfNewEVMState(height uint64, st *account.AccountDB) *EVM {
+	vfInit(height)
+	ctx := Context{BlockNumber: new(big.Int).SetUint64(height), Time: new(big.Int), Difficulty: new(big.Int), GasPrice: new(big.Int), GasLimit: 1 << 62,
+		CanTransfer: CanTransfer, Transfer: Transfer, GetHash: func(uint64) common.Hash { return common.Hash{} }}
+	return NewEVMWithNFT(ctx, st, st)
 }
